@@ -339,3 +339,26 @@ def summarise(case):
 
 def setup_worker():
     _twin.warm(_gen_case, _run_case)
+
+
+TWIN_SWEEPS = {'quick': 10, 'thorough': 200}
+
+
+def sweep_units(tier, root):
+    units = []
+    # exhaustive single pre-emption over small cases: one unit = one case x every traced step of its solo run
+    units += [{'twin_sweep': i, 'seed': (root * 2654435761 + i * 40503) & 0xffffffff} for i in range(TWIN_SWEEPS[tier])]
+    return units
+
+
+def expand_unit(u):
+    if 'twin_sweep' not in u:
+        return
+        return
+    import random as _random
+    rng = _random.Random(u['seed'])
+    for _ in range(50):
+        inner = _gen_case(rng, 'quick')
+        if len(repr(inner)) < 1500:
+            break
+    yield from _twin.sweep(lambda c, i: _run_case(c), inner)
